@@ -13,6 +13,11 @@ def pure(cls, quick, thorough, chunk=4, **kw):
     d.update(kw)
     return d
 
+def rt(cls, quick, thorough, chunk=2, **kw):
+    d = {"engine": "rt", "class": cls, "quick": quick, "thorough": thorough, "chunk": chunk}
+    d.update(kw)
+    return d
+
 def nats(cls, quick, thorough, chunk=4, **kw):
     d = {"engine": "natseng", "class": cls, "quick": quick, "thorough": thorough, "chunk": chunk}
     d.update(kw)
@@ -105,4 +110,16 @@ PROPS = {
         "min": {"quick": {"c17.backoff_inputs": 50000, "c17.retry_scripts": 10000, "c17.breaker_scripts": 10000, "c17.rounds": 500}},
         "rule": "backoff: 2000 configurations x attempt numbers in {0..70,100,1023,1024,1e4,1e6,MaxInt32,MaxInt} per batch, 10 draws each, against min(Max, Initial*Mult^n) in big-float arithmetic; retry: 200 outcome scripts over {ok,transient,permanent} x MaxAttempts 0..6 x cancellation times per batch inside a synctest bubble (exact virtual invocation times); breaker: 200 scripts of (dt on the cooldown lattice, outcome) per batch against a reference automaton; acquisition rounds: every round observed in the SIM traces (first attempt 10-100 ms after the round start, at most 4 attempts, backoff within 10%); distinct = distinct inputs/scripts/traces",
         "assumptions": ["domain committed in DESIGN §9 C17 (Multiplier >= 1, Jitter in [0,1], non-negative durations)"]},
+
+    "C14": {"level": "exploration", "trigger": ["c14.diff_words", "c14.lin_histories", "c14.watch_runs"], "jobs": 8,
+        "batches": [nats("c14diff", 26, 250, chunk=2), nats("c14lin", 10, 100, chunk=2), nats("c14watch", 6, 60, chunk=2)],
+        "min": {"quick": {"c14.diff_words": 300, "c14.diff_words_expiry": 20, "c14.lin_histories": 50, "c14.watch_runs": 20}},
+        "rule": "engine NATS (embedded nats-server 2.12.2 started by the repo's own helper, the library's real adapter obtained through the verif hook): (1) differential: batch = 12 generated sequential operation words over {Create, Update with fresh/latest/stale/zero revision, Get, Delete, Watch, wait-for-expiry} x values {empty, binary, 64 KiB, JSON} on 1-3 keys, executed on the adapter and on the reference model and compared outcome by outcome (success, error identity and text, value, revision); (2) linearizability: batch = 6 histories of 4-8 concurrent clients on 2 keys, call/return stamped by one monotonic clock, checked with porcupine v1.3.0 against the KV contract (every third history runs on the reference store itself); (3) watch contract: batch = 5 runs of a consumer calling Updates() before every receive while a writer performs 10-40 writes/deletes; distinct = distinct operation words / histories / runs",
+        "assumptions": ["single embedded server on loopback (no clustering)", "on history-1 buckets JetStream itself coalesces rapid successive changes: there the watch clause is judged as in-order duplicate-free subsequence ending in the final state (full clause on history-64 buckets)"]},
+
+    "C20": {"level": "exploration", "race": True, "trigger": ["c20.scenarios"], "jobs": 8,
+        "batches": [rt("rt", 32, 400, chunk=2, timeout=1200)],
+        "min": {"quick": {"c20.calls.Status": 2000, "c20.calls.ValidateToken": 2000, "c20.calls.Start": 200, "c20.calls.Stop": 50, "c20.calls.conn.D": 30, "c20.terms": 50}},
+        "rule": "engine RT: the real library in real time (no bubble) built with -race, 2-4 instances with H = 20-50 ms against the reference store with real sleeps, 1.5 s per scenario; hammer goroutines per instance: 2 pollers (IsLeader/LeaderID/Token/Status), validator (ValidateToken / ValidateTokenOrDemote), callback re-registration, 2 lifecycle goroutines (Stop / StopWithContext / Start), a connection-notification dispatcher invoking the handlers the monitor registered (also stale ones), plus an outside party rewriting/deleting the record; oracle: GORACE halt_on_error=0 log files, every WARNING: DATA RACE block normalised to the pair of innermost library functions; distinct = scenarios (each a different configuration and schedule)",
+        "assumptions": ["the race detector only sees races between accesses that actually execute concurrently in these runs", "harness monitors are race-free (a report without library frames makes the run inconclusive)"]},
 }
